@@ -876,6 +876,12 @@ fn gen_arg(rng: &mut Rng, kind: Kind, anchors: &[u64]) -> Vec<u8> {
         }
         21..=24 => int_atom(rng.below(4)),
         25 | 26 => int_atom(max - rng.below(4)),
+        // anywhere between the classes: a uniformly random bit length, so every byte length and
+        // both values of each encoding's top bit occur (sign byte needed or not)
+        27 | 28 => {
+            let shift = rng.below(64);
+            int_atom((rng.next_u64() >> shift).min(if rng.chance(1, 2) { max } else { u64::MAX }))
+        }
         _ => int_atom(rng.below(1000)),
     }
 }
